@@ -356,13 +356,16 @@ class _MpsMpoParent:
         See :meth:`yastn.Tensor.to_dict` for further description.
         """
         factor = psi.factor if level < 2 else psi.config.backend.to_numpy(psi.factor)
-        return {'type': type(psi).__name__,
-                'dict_ver': 1,
-                'N': psi.N,
-                'pC': psi.pC,
-                'nr_phys': psi.nr_phys,
-                'factor': factor,
-                'A': {k: v.to_dict(level=level) for k, v in psi.A.items()}}
+        d = {'type': type(psi).__name__,
+             'dict_ver': 1,
+             'N': psi.N,
+             'pC': psi.pC,
+             'nr_phys': psi.nr_phys,
+             'factor': factor,
+             'A': {k: v.to_dict(level=level) for k, v in psi.A.items()}}
+        if getattr(psi, 'tol', None) is not None:  # truncation tolerance of MpoPBC
+            d['tol'] = psi.tol
+        return d
 
     @classmethod
     def from_dict(cls, d, config=None):
@@ -386,5 +389,7 @@ class _MpsMpoParent:
             psi = cls(N=d['N'], nr_phys=d['nr_phys'])
             psi.factor = d['factor']
             psi.pC = d['pC']
+            if 'tol' in d:
+                psi.tol = d['tol']
             psi.A = {k: TENSOR_CLASSES[v['type']].from_dict(v, config=config) for k, v in d['A'].items()}
             return psi
